@@ -38,6 +38,33 @@ theorem trust_is_ceil (n : Nat) (hn : 2 ≤ n) :
   have : n > 1 := by omega
   simp [this]; omega
 
+/-- every place where the consensus code compares a count with the supermajority (strongly
+    seeing, advancing a round, deciding in a normal round, copying the observed vote in a coin
+    round, a round being decided, receiving an event) accepts exactly the counts strictly above two
+    thirds of the validators: none demands more than the least such integer, none is content with
+    less. The comparison operators are regenerated from the source of each site. -/
+theorem supermajority_sites_accept_iff (n c : Nat) :
+    ∀ s ∈ [Gen.cmpStronglySee, Gen.cmpRound, Gen.cmpFameNormal, Gen.cmpFameCoin,
+           Gen.cmpWitnessesDecided, Gen.cmpRoundReceived],
+      (s.evalN c (Gen.superMajority n) = true ↔ 2 * n < 3 * c) := by
+  intro s hs
+  simp only [List.mem_cons, List.not_mem_nil, or_false] at hs
+  rcases hs with h | h | h | h | h | h <;> subst h <;>
+    simp [Gen.cmpStronglySee, Gen.cmpRound, Gen.cmpFameNormal, Gen.cmpFameCoin,
+      Gen.cmpWitnessesDecided, Gen.cmpRoundReceived, Cmp.evalN, Gen.superMajority] <;> omega
+
+/-- the two places where block signatures are counted let a block through only with strictly more
+    than one third of the validators (counts of distinct validators): `SetAnchorBlock` accepts,
+    `CheckBlock` does not reject -/
+theorem trust_sites_need_more_than_third (n s : Nat) (hn : 1 ≤ n) :
+    (Gen.cmpAnchor.evalN s (Gen.trustCount n n) = true → n < 3 * s) ∧
+    (Gen.cmpCheckBlockReject.evalN s (Gen.trustCount n n) = false → n < 3 * s) := by
+  constructor
+  · intro h
+    exact trusted_needs_more_than_third n s hn (by simpa [Gen.cmpAnchor, Cmp.evalN] using h)
+  · intro h
+    exact trusted_needs_more_than_third n s hn (by simpa [Gen.cmpCheckBlockReject, Cmp.evalN] using h)
+
 section sets
 variable {V : Type} [DecidableEq V] [Fintype V]
 
